@@ -93,9 +93,12 @@ def run(ctx):
     evals = 0
     nontriv = set()
     names = ['A', 'a', 'x41', 'a|b', 'a', 'b', '*', 'ab', '\n', 'a\nb', 'anb', '|', 'a{', 'x', '\x07', 'é', 'a/b', '41', 'a*', 'café.txt', 'caf\xc3\xa9.txt', '\xe9', '\xff\x80',
-             'a\xa0b', 'x-y', 'x\u2014y', '\u4e00', '-', '\xa0']
-    cand = [p for p in pats if len(p) <= 10][: 2500 if ctx.quick else 20000]
+             'a\xa0b', 'x-y', 'x\u2014y', '\u4e00', '-', '\xa0', '8', '9', 'a\x018', '\n89', '\x0789', '\x008', '\x079x', 'x\x058', '\x078', 'a8b']
+    short = [p for p in pats if len(p) <= 10]
+    cand = rng.sample(short, min(len(short), 2500 if ctx.quick else 20000))     # (a sorted prefix would never start with a backslash)
     cand += designed_raw
+    # a backslash before a digit that is not octal is an ordinary escape of that digit; octal runs stop at the first such digit
+    cand += ['\\8', '\\9', 'a\\18', '\\1289', '[\\78]', 'x\\58*', '\\08', '\\79x', '\\128', '[\\8-\\9]', '\\7\\8', '*\\8*']
     cand += ['a\\x7cb', '\\x2a', 'a\\x7bb,c\\x7d', '\\x5ba\\x5d', 'a\\nb', '\\x41', '\\101', '\\u0041', '\\x21a', 'a\\174b', '\\x3f']
     for p in cand:
         for isb in (False, True):
